@@ -1,0 +1,20 @@
+//go:build verif
+
+package shoot
+
+// Hooks for the verification framework in /verif (compiled only with -tags verif; no behaviour change).
+
+// VerifClean runs the all-in-one clean-up of sub-command subCmd in dir, as after a `-type=*` run whose
+// go:generate line sits in allInOneFile.
+func VerifClean(dir, subCmd, allInOneFile string) error {
+	g := &GeneratorBase{
+		subCmd:       subCmd,
+		allInOneFile: allInOneFile,
+		commonFlags:  &CommonFlags{Dir: dir},
+		fileNameMap:  map[string]string{},
+	}
+	return g.Clean()
+}
+
+// VerifFindCmdLine is findCmdLine.
+func VerifFindCmdLine(doc, cmdline string) bool { return findCmdLine(doc, cmdline) }
